@@ -175,6 +175,49 @@ theorem parse_toStr_constructs_same_rule_ambient (k : Int) (a : Args) (r : Rule)
   parse_toStr_constructs_same_rule_cross k k a r h hsp hne hpr hf
     (by by_cases hk : k = 0 <;> simp [hk]) o hu hfs hc kw
 
+/-! ### occurrences (C13 ∘ C01's iteration model), naive start -/
+
+/-- the keyword arguments `rrulestr` hands to `rrule()` for a text whose DTSTART line has NO zone (no TZID parameter, no `Z`):
+    as `backArgs`, with the start's zone tag NAIVE (`tz := 0`) — what the reparsed start really is, whatever the rule's was -/
+def backArgsNaive (o : Args) (pa : RArgs) : Args := { backArgs o pa with tz := 0 }
+
+theorem construct_tz {a : Args} {r : Rule} (h : construct a = .ok r) : r.tz = a.tz := by
+  obtain ⟨_, _, _, _, _, _, _, _, _, _, hr⟩ := RRule.construct_ok a r h
+  rw [hr]
+
+/-- **same occurrences**: for a rule with a NAIVE start built under ambient first weekday `k`, `rrulestr(str(rule))` (read under
+    the same `k`) hands the constructor arguments — with a naive start, as the DTSTART text carries no zone — that build a
+    rule `r'` whose iteration (C01's `iter` / `iterDT`: the values yielded during the first `fuel` periods and how the
+    generator ended) equals the rule's for EVERY fuel: the same occurrences in the same order, the same end. -/
+theorem same_occurrences_ambient (k : Int) (a : Args) (r : Rule) (h : constructW k a = .ok r) (hnaive : a.tz = 0)
+    (hsp : a.bysetpos ≠ some [])
+    (hne : NoEmptyBy (origArgs (resolveW k a) r)) (hpr : Printable (strInOf k (origArgs (resolveW k a) r)))
+    (hf : 0 ≤ (origArgs (resolveW k a) r).freq)
+    (o : Opts) (hu : o.unfold = false) (hfs : o.forceset = false) (hc : o.compatible = false) (kw : Bool) :
+    ∃ pa r', parseRfc (toStr (strInOf k (origArgs (resolveW k a) r))) o kw =
+        .ok (.rule pa (some (showDT (sixOf r.dtstart), [], o.po)) o.cache) ∧
+      constructW k (backArgsNaive (origArgs (resolveW k a) r) pa) = .ok r' ∧
+      ∀ fuel, RRule.iter r' fuel = RRule.iter r fuel ∧ RRule.iterDT r' fuel = RRule.iterDT r fuel := by
+  obtain ⟨pa, dt, hp, hc'⟩ := parse_toStr_constructs_same_rule_ambient k a r h hsp hne hpr hf o hu hfs hc kw
+  have hp2 := parseRfc_toStr _ hpr _ rfl o hu hfs hc kw
+  rw [hp2] at hp
+  simp only [Except.ok.injEq, Parsed.rule.injEq] at hp
+  obtain ⟨hpa, hdt, _⟩ := hp
+  have htz : (origArgs (resolveW k a) r).tz = 0 := by
+    show r.tz = 0
+    rw [construct_tz (a := resolveW k a) h]; exact hnaive
+  have hb : backArgsNaive (origArgs (resolveW k a) r) pa = backArgs (origArgs (resolveW k a) r) pa := by
+    unfold backArgsNaive
+    have : (backArgs (origArgs (resolveW k a) r) pa).tz = 0 := htz
+    cases hba : backArgs (origArgs (resolveW k a) r) pa
+    rw [hba] at this
+    simp only at this
+    subst this
+    rfl
+  refine ⟨pa, r, ?_, by rw [hb]; exact hc', fun _ => ⟨rfl, rfl⟩⟩
+  rw [hp2, ← hpa]
+  rfl
+
 /-- the former counterexample of D-C13-ambient-wkst, now a regression fact: a WEEKLY rule with an explicit `wkst=MO`, built,
     printed and reparsed under `calendar.setfirstweekday(6)`, comes back with week start 0 and is the same rule (before
     the repair the third component was `(0, 6, false)`) -/
